@@ -175,17 +175,17 @@ BODY = {
               from_vector=2, split_merge=3, orthonormalize=0.7, edit=0.7, deepcopy=0.3, ham=0.5),
     'C04': _w(new_mps=3, new_mpo=2, ham=1, herm_mpo=1, vdot=4, norm=2, op_avg=3, op_inner=3, op_density=2.5, env_blocks=5,
               orthonormalize=1.5, compress=1, add=1, apply=1, tdvp=0.5, dmrg=0.3, edit=0.7, matmul=0.4),
-    'C08': _w(share_copy=0.3, tdvp=10, orthonormalize=0.8, deepcopy=0.5, norm=0.5, op_avg=0.7, new_mps=1, as_vector=0.3, vdot=0.3, edit=1.2, compress=0.3),
-    'C09': _w(share_copy=0.3, tdvp=6, tdvp_reverse=4, new_mps=1.2, deepcopy=0.4, orthonormalize=0.5, op_avg=0.3, edit=0.8),
-    'C10': _w(share_copy=0.3, dmrg=10, orthonormalize=0.6, deepcopy=0.5, new_mps=1.2, op_avg=0.6, norm=0.3, tdvp=0.3, edit=1.0, compress=0.3),
+    'C08': _w(scale_H_inplace=1.2, share_copy=0.3, tdvp=10, orthonormalize=0.8, deepcopy=0.5, norm=0.5, op_avg=0.7, new_mps=1, as_vector=0.3, vdot=0.3, edit=1.2, compress=0.3),
+    'C09': _w(scale_H_inplace=0.8, share_copy=0.3, tdvp=6, tdvp_reverse=4, new_mps=1.2, deepcopy=0.4, orthonormalize=0.5, op_avg=0.3, edit=0.8),
+    'C10': _w(scale_H_inplace=1.0, share_copy=0.3, dmrg=10, orthonormalize=0.6, deepcopy=0.5, new_mps=1.2, op_avg=0.6, norm=0.3, tdvp=0.3, edit=1.0, compress=0.3),
     'C11': _w(share_copy=0.6, kernel=5, zero_qnumbers=0.5, new_mps=4, new_mpo=2, orthonormalize=9, edit=3, add=1.5, apply=1, tdvp=1.2, dmrg=0.8, compress=0.5,
               deepcopy=0.3, ham=0.4, herm_mpo=0.3),
     'C12': _w(share_copy=0.6, kernel=5, zero_qnumbers=0.5, deepcopy=0.4, new_mps=3.5, split_merge=7, compress=5, from_vector=2.5, add=2.5, sub=1, apply=1, tdvp=1.2, dmrg=0.8,
               edit=2, orthonormalize=0.7, ham=0.4, herm_mpo=0.3),
     'C13': _w(share_copy=0.6, new_mps=3, compress=9, from_vector=4, add=3, sub=1.5, apply=1.5, tdvp=0.8, edit=1.5, orthonormalize=0.7,
               deepcopy=0.4, ham=0.4, new_mpo=0.5, herm_mpo=0.2),
-    'C14': _w(tdvp=5, dmrg=5, new_mps=1, orthonormalize=0.3, tdvp_reverse=0.5),
-    'C15': _w(tdvp=5, dmrg=5, new_mps=1, orthonormalize=0.3, tdvp_reverse=0.5),
+    'C14': _w(scale_H_inplace=0.3, tdvp=5, dmrg=5, new_mps=1, orthonormalize=0.3, tdvp_reverse=0.5),
+    'C15': _w(scale_H_inplace=0.3, tdvp=5, dmrg=5, new_mps=1, orthonormalize=0.3, tdvp_reverse=0.5),
     'C19': _w(share_copy=0.6, kernel=1, new_mps=2, new_mpo=1.5, ham=0.8, herm_mpo=0.6, identity=0.5, from_vector=1, orthonormalize=2, compress=2,
               add=3, sub=2, matmul=1.5, apply=3, split_merge=1, tdvp=1.2, dmrg=1, edit=1.5, deepcopy=1, zero_qnumbers=0.8,
               vdot=1, norm=0.5, op_avg=1, op_inner=1, op_density=0.7, as_vector=1, as_matrix=1, env_blocks=0.7),
@@ -250,7 +250,7 @@ def _gen_ham_op(rng: Rng, cfg, generic=False):
         return {'op': 'ham', 'model': which, 'sub': rng.sub(), 'structure': rng.pick(['dense', 'sym', 'sparse'] if not generic else ['dense', 'sym'])}
     # zero / free / d1: no built-in model -> random Hermitian MPO
     return {'op': 'herm_mpo', 'qD': gen_mpo_qD(rng, cfg['qd'], L, min(cfg['Dmax'], 3)), 'sub': rng.sub(),
-            'entries': rng.pick(['complex', 'complex', 'real'])}
+            'entries': rng.pick(['complex', 'complex', 'real']), 'product': rng.chance(0.25)}
 
 
 def gen_new_mps(rng: Rng, cfg, style=None, qtot=None):
@@ -423,7 +423,7 @@ def gen_op(rng: Rng, cfg, kind: str) -> dict:
         return gen_ham_op(rng, cfg, generic=(profile == 'C20') or rng.chance(0.3))
     if kind == 'herm_mpo':
         return {'op': 'herm_mpo', 'qD': gen_mpo_qD(rng, cfg['qd'], L, min(cfg['Dmax'], 3)), 'sub': s(),
-                'entries': rng.pick(['complex', 'complex', 'real'])}
+                'entries': rng.pick(['complex', 'complex', 'real']), 'product': rng.chance(0.25)}
     if kind == 'from_vector':
         return {'op': 'from_vector', 'sel': s(), 'tol': rng.pick(DYADIC_TOLS) if rng.chance(0.6) else 0.0,
                 'admix': rng.pick([None, None, 20, 27, 30, 34]), 'sub': s()}
@@ -456,9 +456,11 @@ def gen_op(rng: Rng, cfg, kind: str) -> dict:
         return {'op': 'split_merge', 'sel': s(), 'site': s(), 'distr': rng.pick(['left', 'right', 'sqrt']),
                 'tol': rng.pick(DYADIC_TOLS) if rng.chance(0.5) else 0.0, 'exact_tie': rng.chance(0.3), 'between': rng.chance(0.3),
                 'tolscale': rng.random()}
+    if kind == 'scale_H_inplace':
+        return {'op': 'scale_H_inplace', 'sel': s(), 'site': s(), 'factor': rng.pick([0.5, 2.0, -1.0, 1.5, 0.25])}
     if kind == 'kernel':
         return {'op': 'kernel', 'which': rng.pick(['qr', 'svd']), 'sel': s(), 'site': s(), 'reuse': rng.chance(0.5),
-                'mutate': rng.pick(['negate', 'shift', 'scribble_result', 'permute']), 'sub': s(),
+                'mutate': rng.pick(['negate', 'shift', 'scribble_result', 'permute', 'refill', 'refill']), 'sub': s(),
                 'magnitude': rng.wpick([('normal', 6), ('tiny', 1), ('huge', 1)]),
                 'tol': rng.pick(DYADIC_TOLS) if rng.chance(0.5) else 0.0}
     if kind == 'tdvp':
